@@ -8,7 +8,7 @@ from sa.effects import classify, open_mode
 from sa.flow import show, sig, subterms
 from sa.model import AnalysisError, norm, parent, walk_no_nested
 
-from .common import is_call, callers_of, commands, need, prov, reach_from
+from .common import alts as alts_, is_call, callers_of, commands, need, prov, reach_from
 from .xmlcommon import writers
 
 
@@ -63,6 +63,36 @@ def run(report, p):
         for call, tg in p.calls[fq]:
             if any(t in _MOVES for t in tg):
                 r6.instance(p.funcs[fq], call, norm(call)[:70])
+
+    # ------------------------------------------------------------------ R15.7
+    r7 = report.rule(
+        "R15.7",
+        "a temporary that is later moved onto a history file lives in the directory of that file: nothing create / flatten reach makes a temporary file or folder through the "
+        "tempfile module without a `dir=` derived from the destination (the default is the system temp directory: os.replace from there fails with EXDEV whenever the tree is "
+        "on another file system - a card, a network share, /dev/shm - and is not atomic even where a copy would work)",
+        1,
+    )
+    _TMP = ("NamedTemporaryFile", "mkstemp", "mkdtemp", "TemporaryFile", "TemporaryDirectory", "SpooledTemporaryFile", "gettempdir", "mktemp")
+    n_scanned = 0
+    for fq in sorted(reach_from(p, [need(cmds, "create").qual, need(cmds, "flatten").qual])):
+        f7 = p.funcs[fq]
+        for call, tg in p.calls[fq]:
+            n_scanned += 1
+            hit = next((t for t in tg if t.replace("ext:", "").startswith("tempfile.") and t.split(".")[-1] in _TMP), None)
+            if hit is None:
+                continue
+            r7.instance(f7, call, norm(call)[:70])
+            d = next((k.value for k in call.keywords if k.arg == "dir"), None)
+            ok7 = False
+            if d is not None and not (isinstance(d, ast.Constant) and d.value is None):
+                try:
+                    os7 = [pr.inline(o, depth=2) for o in pr.origins(d, f7)]
+                except AnalysisError:
+                    os7 = []
+                ok7 = bool(os7) and all(any(s_[0] == "param" for s_ in subterms(o)) and not any(s_[0] == "call" and "gettempdir" in s_[1] for s_ in subterms(o)) for o in os7)
+            r7.check(ok7, f7, call, f"`{norm(call)[:70]}` creates the temporary in the system temp directory (no `dir=` taken from the destination): moving it onto the manifest / chain file crosses file systems whenever the tree is not on the one that holds the temp directory - create and flatten then fail with OSError EXDEV ('Invalid cross-device link') and write nothing, while the same tree next to the temp directory works", construct=f"{hit.split('.')[-1]} without dir= of the destination")
+    r7.instance(None, None, f"{n_scanned} call sites reachable from create / flatten scanned for tempfile use")
+    r7.check(True, None, None, "")
 
     # ------------------------------------------------------------------ R15.1
     r1 = report.rule(
@@ -174,6 +204,32 @@ def run(report, p):
             if victim in finals:
                 r1.instance(f, c, norm(c)[:70])
                 r1.check(False, f, c, f"`{norm(c)[:70]}` takes the durable file `{victim}` away from its final name ({'renamed away' if leaf not in ('remove', 'unlink') else 'removed'}) before the new content is in place: a kill right after it leaves the history without that file (no chain file: every later command aborts) - os.replace onto the existing file is the atomic step", construct=f"durable file {victim} moved away / removed")
+
+    # ------------------------------------------------------------------ R15.8
+    r8 = report.rule(
+        "R15.8",
+        "no roll-back of published files: nothing create / flatten reach removes or moves away the file a hash list or chain object names as its own (`<hash list>.file_path`, "
+        "`<chain>.file_path`). Once a manifest's chain entry is published (children are committed before their parents) the manifest is part of the history - an error or a "
+        "Ctrl-C in a LATER step that deletes 'the manifests of this run' leaves chains that list missing files, and every later command aborts",
+        1,
+    )
+    n8 = 0
+    for fq in sorted(reach):
+        f8 = p.funcs[fq]
+        for call, tg in p.calls[fq]:
+            t8 = next((t for t in tg if t in ("ext:os.remove", "ext:os.unlink", "ext:os.rename", "ext:os.renames", "ext:os.replace", "ext:shutil.move", "ext:shutil.rmtree", "ext:os.rmdir", "ext:os.removedirs", "ext:os.truncate") or t.endswith("Path.unlink")), None)
+            if t8 is None or not call.args:
+                continue
+            n8 += 1
+            r8.instance(f8, call, norm(call)[:70])
+            try:
+                os8 = [a_ for o in pr.origins(call.args[0], f8) for a_ in alts_(pr.inline(o, depth=2))]
+            except AnalysisError:
+                os8 = []
+            own = [o for o in os8 if o[0] == "attr" and o[2] == "file_path"]
+            r8.check(not own, f8, call, f"`{norm(call)[:70]}` removes / moves away the file that a hash list or chain object names as its own ({show(own[0])[:80] if own else ''}): for a nested history that file is already listed in the child's chain file when a later step of the same commit fails (or is interrupted with Ctrl-C) - the child's chain then names a manifest that no longer exists and every later command on the tree aborts", construct="published history file removed")
+    r8.instance(None, None, f"{n8} removing / renaming call sites reachable from create / flatten")
+    r8.check(True, None, None, "")
 
     # ------------------------------------------------------------------ R15.2
     r2 = report.rule("R15.2", "in each history the new generation is validated before the first write (an abort leaves nothing half-written)", 1)
